@@ -72,6 +72,7 @@ var (
 	fRespLost   = simrt.RegisterCounter("fault_response_lost_then_retry")
 	fRxDelay    = simrt.RegisterCounter("fault_rxdelay_out_of_range")
 	fRotate     = simrt.RegisterCounter("fault_device_keys_rotated")
+	fConfused   = simrt.RegisterCounter("fault_message_type_and_frame_type_disagree")
 	cRotRace    = simrt.RegisterCounter("probe_request_overtaken_by_key_rotation")
 	fRetryDup   = simrt.RegisterCounter("fault_duplicate_delivery")
 	fReqLost    = simrt.RegisterCounter("fault_request_lost")
@@ -161,6 +162,7 @@ type reqCtx struct {
 }
 
 type world struct {
+	keks0   map[string][]byte // pristine copy of the KEK store
 	devs    []*devRec
 	byEUI   map[lorawan.EUI64]*devRec
 	keks    map[string][]byte
@@ -221,8 +223,9 @@ func (w *world) getKEK(label string) ([]byte, error) {
 	} else {
 		c.asKEK = k
 	}
-	// hand out a copy: the handler must not be able to modify the store
-	return append([]byte(nil), k...), nil
+	// storage hands out the slice it holds (as the repository's own test
+	// storage does): the handler must treat it as read-only
+	return k, nil
 }
 
 func (w *world) getASLabel(devEUI lorawan.EUI64) (string, error) {
@@ -436,6 +439,17 @@ func build(sw *sim.World) {
 			break
 		}
 	}
+	w.keks0 = map[string][]byte{}
+	for _, l := range sortedKeys(w.keks) {
+		w.keks0[l] = append([]byte(nil), w.keks[l]...)
+	}
+	sw.Finish = append(sw.Finish, func() {
+		for _, l := range sortedKeys(w.keks0) {
+			if !bytes.Equal(w.keks[l], w.keks0[l]) {
+				simrt.Report("storage.kek-modified", fmt.Sprintf("the KEK stored under label %q was %x before the run and is %x after it: the handler wrote into data a storage callback returned", l, w.keks0[l], w.keks[l]))
+			}
+		}
+	})
 	h, err := joinserver.NewHandler(joinserver.HandlerConfig{
 		GetDeviceKeysByDevEUIFunc: w.getDeviceKeys,
 		GetKEKByLabelFunc:         w.getKEK,
@@ -611,7 +625,10 @@ func nsTask(w *world, id int, netID lorawan.NetID, senderID string, n int, sub u
 		}
 		rq.viaClient = r.Intn(3) != 0
 		if !rq.viaClient && faults && r.Intn(3) == 0 {
-			rq.rawKind = 1 + r.Intn(4)
+			rq.rawKind = 1 + r.Intn(5)
+			if rq.rawKind == 5 && rq.kind == 4 {
+				rq.rawKind = 3
+			}
 		}
 		w.cur[me] = c
 		doRequest(w, r, rq, c, faults, live)
@@ -742,6 +759,15 @@ func doRequest(w *world, r *sim.Rand, rq *request, c *reqCtx, faults, live bool)
 	case 4:
 		body = bytes.Replace(body, []byte(`"DevEUI":"`), []byte(`"DevEUI":"zz`), 1)
 		simrt.Count(fBodyJunk)
+	case 5:
+		// message type and frame type disagree: a JoinReq message carrying a
+		// rejoin-request frame and vice versa
+		if rq.kind == 0 {
+			body = bytes.Replace(body, []byte(`"MessageType":"JoinReq"`), []byte(`"MessageType":"RejoinReq"`), 1)
+		} else {
+			body = bytes.Replace(body, []byte(`"MessageType":"RejoinReq"`), []byte(`"MessageType":"JoinReq"`), 1)
+		}
+		simrt.Count(fConfused)
 	}
 	if faults && rq.rawKind == 0 && r.Intn(6) == 0 && len(body) > 4 {
 		c.bodyErrAt = r.Intn(len(body))
@@ -758,6 +784,17 @@ func doRequest(w *world, r *sim.Rand, rq *request, c *reqCtx, faults, live bool)
 		*c = reqCtx{bodyErrAt: -1, failKeys: c.failKeys, failKEK: c.failKEK, failLabel: c.failLabel, failNet: c.failNet, overflow: c.overflow}
 		simrt.Count(fRetryDup)
 		code, out = w.serve(body, c)
+	}
+	if rq.rawKind == 5 {
+		// there is no valid request here: whatever the answer is, it must not be Success
+		var res struct {
+			Result backend.Result `json:"Result"`
+		}
+		json.Unmarshal(out, &res)
+		if res.Result.ResultCode == backend.Success {
+			simrt.Report("j3.type-confusion-accepted", fmt.Sprintf("a message whose MessageType and frame type disagree (request kind %d sent as the other type, wrong-MIC=%v) was answered Success: %s", rq.kind, rq.badMIC, firstN(out, 300)))
+		}
+		return
 	}
 	malformed := rq.rawKind != 0 || c.bodyErrAt >= 0
 	if malformed {
